@@ -133,6 +133,53 @@ func newStoreModel(c *kit.Ctx) *storeModel {
 	return m
 }
 
+// owns reports whether s is executed by this writer: in its transaction function
+// or in the body function it hands the transaction to.
+func (w *pointWriter) owns(s *kit.SQLSite) bool {
+	r := s.F.Root()
+	return r == w.F || r == w.Body
+}
+
+// idParam traces a bind argument of an owned site to one of the writer's id
+// parameters (w.IDs); through the body function the body's own parameter is
+// mapped to the argument the writer passes for it.
+func (w *pointWriter) idParam(s *kit.SQLSite, e ast.Expr) *types.Var {
+	fn := s.F.Root()
+	if fn == w.F {
+		return traceToParam(w.F, e, w.IDs)
+	}
+	if fn != w.Body {
+		return nil
+	}
+	var bodyIDs []*types.Var
+	for _, p := range w.Body.Params() {
+		if b, ok := p.Type().Underlying().(*types.Basic); ok && b.Kind() == types.String {
+			bodyIDs = append(bodyIDs, p)
+		}
+	}
+	bp := traceToParam(w.Body, e, bodyIDs)
+	if bp == nil {
+		return nil
+	}
+	idx := -1
+	for i, p := range w.Body.Params() {
+		if p == bp {
+			idx = i
+		}
+	}
+	for _, call := range w.F.AllCalls(false) {
+		if w.F.CalleeFunc(call) == w.Body && idx >= 0 && idx < len(call.Args) {
+			o := kit.ObjOf(w.F.Info(), call.Args[idx])
+			for _, p := range w.IDs {
+				if types.Object(p) == o {
+					return p
+				}
+			}
+		}
+	}
+	return nil
+}
+
 func (m *storeModel) writer(table string) *pointWriter {
 	for _, w := range m.writers {
 		if w.Table == table {
